@@ -183,7 +183,8 @@ SPEC = dict(
     level="proof",
     design_ref="DESIGN.md §5 C40",
     technique=("Lean 4 invariant proofs over message-level transition systems (Paxos: Lamport SafeAt adapted to the code's "
-               "acceptor rule; Raft: vote-grant invariants over the transcribed raft_step, macro/micro-step refinement) + "
+               "acceptor rule; Raft: vote-grant invariants over the transcribed raft_step, ghost per-term leader log / leader "
+               "commit index, macro/micro-step refinement) + "
                "differential correspondence of the real raft_step / the real simulated Hydro program against the compiled model "
                "+ operator-table translation of paxos.rs"),
     level_text=("PARTIAL, and stated so. Raft: `raftStep` is a line-by-line Lean transcription of the pure step function "
@@ -191,31 +192,54 @@ SPEC = dict(
                 "calls by any members on any batches of previously sent messages - loss, duplication, reordering, fail-stop - "
                 "any timers, any requests): election safety (<= 1 leader per term over the whole history), one vote per term, "
                 "leaders hold majority votes, LOG MATCHING (same term at a position in two logs => identical prefixes, via ghost "
-                "per-term canonical logs through the truncate/skip/append loop), index-consistency of logs; proved on "
+                "per-term canonical logs through the truncate/skip/append loop), index-consistency of logs; NO RETRACTION "
+                "(`raft_no_retraction`: a raft_step call never lowers commit_index and never changes a committed prefix - the "
+                "truncation guard); COMMIT PROVENANCE (`raft_commit_provenance`: every member's committed prefix is a prefix of "
+                "the log of the leader of some term whose leader had committed at least as much); proved on "
                 "micro-steps and transferred to whole raft_step calls by a refinement lemma. Committed-prefix agreement "
-                "(state machine safety) is stated (`RaftCommittedPrefixAgreementStatement`) and only partly proved "
-                "(`raft_committed_prefix_agreement_partial`: commit <= log length, emitted <= commit); the missing lemma is "
-                "leader completeness. Tie: (a) the real `raft_step` is driven by a scripted "
+                "(state machine safety = the property clause for Raft) is NOT proved: it is stated "
+                "(`RaftCommittedPrefixAgreementStatement`) and REDUCED to exactly one named, unproved lemma - leader "
+                "completeness (`RaftLeaderCompletenessStatement`, stated on the executions instrumented with the two history "
+                "variables): `raft_agreement_of_leader_completeness : RaftLeaderCompletenessStatement n -> "
+                "RaftCommittedPrefixAgreementStatement n` is a theorem. Also `raft_committed_prefix_agreement_partial` (commit <= "
+                "log length, emitted <= commit). For the unproved part the evidence is fuzz-level only: (a) the real `raft_step` is driven by a scripted "
                 "adversarial network (bounded random schedules incl. partitions, crashes, a scripted figure-8 prefix; 1-5 members) and every call's outputs + resulting state are "
                 "diffed against the compiled model, which also checks trace inclusion of the network; (b) the real Hydro program "
-                "`raft(..)` is compiled by the production simulator backend and run under seed-derived schedules, a cfg-guarded "
+                "`raft(..)` is compiled by the production simulator backend and run under seed-derived schedules (fuzz_repro "
+                "samples, not exhaustive), a cfg-guarded "
                 "hook logs every protocol step, which is diffed the same way; (c) the property itself (gap-free, pairwise "
                 "prefix-consistent committed sequences; one leader per term; log matching; no protocol-violation panic; externally "
-                "observed committed streams = step outputs) is evaluated on the real outputs. Paxos: agreement (no slot has two "
-                "chosen values) proved for the abstract message-level protocol transcribed from paxos.rs, for all executions, "
-                "generic quorums and for f+1 of 2f+1; the comparison operators / quorum sizes of the decision closures are "
+                "observed committed streams = step outputs) is evaluated on the real outputs of those sampled runs. Paxos: agreement (no slot has two "
+                "chosen values) proved for the ABSTRACT message-level protocol transcribed from paxos.rs, for all executions of "
+                "that abstract protocol, generic quorums and f+1 of 2f+1; the comparison operators / quorum sizes of the decision closures are "
                 "re-extracted from paxos.rs into Lean on every run and the theorems are re-checked against them; the rest of the "
-                "decision functions is fingerprinted."),
+                "decision functions is fingerprinted. The abstract protocol ASSUMES two proposer-side disciplines that no theorem or "
+                "executable tie connects to the code (see level_note); there is no Paxos execution tie at all."),
     level_note=("Modelled, not verified: the Hydro dataflow wiring of paxos.rs (batching, `sliced!` state, leader election timers) "
                 "is NOT executed - the Paxos simulator run is impossible here because paxos_core uses tokio timers that the "
                 "simulator runtime does not provide; Paxos is tied only by translation (operators, quorum sizes, ballot order) and "
-                "fingerprints. The proposer's one-value-per-(ballot,slot) discipline (`index_payloads`) and `a_checkpoint = None` "
-                "are assumptions of the abstract Paxos model. For Raft the wiring of `raft_server` is exercised only on sampled "
-                "simulator schedules; crash-recovery and membership change are out of scope (fail-stop, fixed cluster)."),
+                "fingerprints. ASSUMPTIONS of the abstract Paxos model that are guards of its `sendP2a` / of `chosen` and are NOT "
+                "justified by a theorem or a tie to the code - reviewers found reasons to doubt both for the code as written: "
+                "(1) one value per (ballot, slot) (guard `forall v', msgs (p2a b s v') -> v' = v`): in paxos.rs the slot base for new "
+                "payloads is `p_max_slot + 1` whenever the recovered log is non-empty, and the p1b quorum snapshot that feeds "
+                "`p_max_slot` is present in every tick of a leadership, so `next_slot` may be ignored and slots re-used across ticks "
+                "under one ballot (candidate defect, under investigation, not reproduced end-to-end here); "
+                "(2) a quorum is f+1 DISTINCT acceptors (`isQ Q`, `chosen`): hydro_std::quorum::collect_quorum* count Ok RESPONSES "
+                "per key (ballot / (slot, ballot)), the sender id is dropped, and p1a is re-broadcast with an unchanged ballot on "
+                "every election trigger, so one acceptor answering twice is counted twice (candidate defect, not reproduced "
+                "end-to-end here). `a_checkpoint = None` (no log garbage collection) is a further assumption; the replica layer "
+                "(kv_replica: apply in slot order) is not modelled. "
+                "For Raft the wiring of `raft_server` is exercised only on sampled "
+                "simulator schedules; `cluster_size` is taken to be the real member count (raft.rs documents it 'must match'); "
+                "the two `assert!` panics of raft_step are modelled as `none` = the member stops (never exercised by the "
+                "generator, messages are never forged); crash-recovery and membership change are out of scope (fail-stop, fixed cluster)."),
     trusted_base=["Paxos: abstract model transcribed by hand from paxos.rs; only operators/quorum sizes/ballot order are machine-extracted, the remaining text is fingerprinted",
                   "Raft: HashSet/HashMap of raft_step modelled as duplicate-free list / association list (printed sorted)",
                   "hydro_lang::sim scheduler and the cfg-guarded trace hook in raft_step (observation only)",
                   "Rust `sort_by` stability (std) modelled by a stable insertion sort"],
-    assumptions=["fail-stop members, fixed cluster size, payloads are opaque values",
-                 "Paxos: a proposer assigns at most one value to a (ballot, slot) pair; no log garbage collection (a_checkpoint = None)"],
+    assumptions=["fail-stop members, fixed cluster size (Raft: cluster_size = number of members), payloads are opaque values",
+                 "Raft: committed-prefix agreement rests on the unproved RaftLeaderCompletenessStatement",
+                 "Paxos: a proposer assigns at most one value to a (ballot, slot) pair (NOT established for paxos.rs)",
+                 "Paxos: a quorum of Ok replies comes from f+1 distinct acceptors, i.e. an acceptor answers a (ballot) / (slot, ballot) key at most once (NOT established for paxos.rs: collect_quorum counts responses)",
+                 "Paxos: no log garbage collection (a_checkpoint = None)"],
 )
